@@ -12,6 +12,7 @@ NoLabel bg_dummy_NoLabel;
 EdgeMultiplicity bg_dummy_uint;
 bg_real bg_dummy_real;
 bg_size bg_scratch_sz;
+bg_ghost_lookup_t bg_ghost_lookup;
 bg_vec_sz bg_scratch_vec_sz;
 const VLabel bg_zero_VLabel;
 const NoLabel bg_zero_NoLabel;
